@@ -49,9 +49,10 @@ PROPS = {
         theorems=['C02_maturity_test', 'C02_not_early', 'C02_cancel_pending', 'C02_cancelled_never_paid',
                   'C02_cancel_not_pending', 'C02_paid_not_pending'],
         runs=[chain('periods', 'periods', 48, 1600, 'check_C02'),
-              chain('settle', 'settlement', 40, 1200, 'check_C02')],
+              chain('settle', 'settlement', 40, 1200, 'check_C02'),
+              chain('imported', 'imported', 40, 1200, 'check_C02')],
         fields=[2, 3, 4, 15, 16, 20, 21],
-        rule=CHAIN_RULE + "; the periods profile draws payout periods from {1..9, 2^62, 2^63-1, 2^63, 2^64-1-h, 2^64-h, 2^64-h+1, 2^64-1}",
+        rule=CHAIN_RULE + "; the periods profile draws payout periods from {1..9, 2^62, 2^63-1, 2^63, 2^64-1-h, 2^64-h, 2^64-h+1, 2^64-1}; the imported profile imports records whose creation height is below, at, above the current height or near 2^63 / 2^64",
         assumptions=SETTLE_ASSUME),
     'C09': dict(
         theorems=['C09_only_admins', 'C09_cancel_exactly', 'C09_add_admin_exactly', 'C09_remove_admin_exactly',
@@ -79,7 +80,7 @@ PROPS = {
     'C03': dict(
         theorems=['C03_only_operator_or_feeder', 'C03_oracle_message_alone', 'C03_only_named_validator'],
         runs=[func('ante', 'ante', 240, 6000, 'ante_mismatches', 'ante_check_C03', fields=[1, 2], shards_quick=8, shards_thorough=16),
-              chain('oracle', 'oracle', 24, 800, 'check_C08')],
+              chain('oracle', 'oracle', 40, 1200, 'check_C03_chain')],
         fields=[7, 8, 9, 20],
         rule=ANTE_RULE, assumptions=ANTE_ASSUME),
     'C04': dict(
